@@ -30,6 +30,13 @@ def _deck_shapes():
     from pptx.enum.shapes import MSO_CONNECTOR, MSO_SHAPE
     from pptx.util import Inches
     prs = pptx.Presentation()
+    for _twin in (0, 1):            # slides[1] is an identical copy: every object has a TWIN of its kind at the same path on it
+        _fill_shapes_slide(prs, pptx, MSO_CONNECTOR, MSO_SHAPE, Inches)
+    _drop_layouts(prs, keep=(1,))
+    return prs
+
+
+def _fill_shapes_slide(prs, pptx, MSO_CONNECTOR, MSO_SHAPE, Inches):
     s = prs.slides.add_slide(prs.slide_layouts[1])                       # shapes[0] title, [1] body placeholder
     sh = s.shapes
     sh.add_shape(MSO_SHAPE.ROUNDED_RECTANGLE, Inches(1), Inches(1), Inches(2), Inches(1))           # [2]
@@ -47,8 +54,6 @@ def _deck_shapes():
     b.fill.gradient()
     c = sh.add_shape(MSO_SHAPE.OVAL, Inches(8), Inches(4), Inches(1), Inches(1))                    # [11] pattern fill
     c.fill.patterned()
-    _drop_layouts(prs, keep=(1,))
-    return prs
 
 
 def _drop_layouts(prs, keep):
@@ -65,6 +70,13 @@ def _chart_deck(kind):
     from pptx.enum.chart import XL_CHART_TYPE
     from pptx.util import Inches
     prs = pptx.Presentation()
+    for _twin in (0, 1):            # slides[1] is an identical copy (twin objects)
+        _fill_chart_slide(prs, kind, BubbleChartData, CategoryChartData, XL_CHART_TYPE, Inches)
+    _drop_layouts(prs, keep=())
+    return prs
+
+
+def _fill_chart_slide(prs, kind, BubbleChartData, CategoryChartData, XL_CHART_TYPE, Inches):
     s = prs.slides.add_slide(prs.slide_layouts[6])
     if kind == "xy":
         from pptx.chart.data import XyChartData
@@ -73,16 +85,14 @@ def _chart_deck(kind):
         se.add_data_point(1, 2)
         se.add_data_point(2, 1.5)
         s.shapes.add_chart(XL_CHART_TYPE.XY_SCATTER, Inches(1), Inches(1), Inches(6), Inches(4), cd)
-        _drop_layouts(prs, keep=())
-        return prs
+        return
     if kind == "bubble":
         cd = BubbleChartData()
         se = cd.add_series("S1")
         se.add_data_point(1, 2, 3)
         se.add_data_point(2, 1, 5)
         s.shapes.add_chart(XL_CHART_TYPE.BUBBLE, Inches(1), Inches(1), Inches(6), Inches(4), cd)
-        _drop_layouts(prs, keep=())
-        return prs
+        return
     cd = CategoryChartData()
     cd.categories = ["a", "b", "c"]
     cd.add_series("S1", (1.5, -2, 3))
@@ -96,8 +106,6 @@ def _chart_deck(kind):
         gf2 = s.shapes.add_chart(ct, Inches(1), Inches(5), Inches(6), Inches(2), cd)      # [1]: a chart with titles present
         gf2.chart.has_title = True
         gf2.chart.value_axis.has_title = True
-    _drop_layouts(prs, keep=())
-    return prs
 
 
 def deck_bytes(name: str) -> bytes:
@@ -505,8 +513,23 @@ def run_trace(job) -> dict:
     active: set = set()
     s = snapshot(obj, kd, active)
     tr = {"id": tid, "k": RT["order"].index(kname) + 1, "init": s, "steps": []}
+    # the TWIN: the object at the same path on the identical second slide of a fixture deck.  After the first accepted assignment the
+    # twin is given the same value (two objects that share a relationship or a cached sub-object then really share it); from then on
+    # m.tw says whether any reading of the twin changed in the step ("changed") - or, at the mirror step, any reading of the object
+    tpath = ("slides[1]" + path[len("slides[0]"):]) if (path.startswith("slides[0]") and not str(deck).startswith("/")) else None
+
+    def twin_of(prs_):
+        if tpath is None:
+            return None
+        try:
+            return resolve(prs_, tpath)
+        except Exception:       # noqa: BLE001
+            return None
+    twin = twin_of(prs)
+    tw_prev = snapshot(twin, kd, active)["r"] if twin is not None else None
+    mirrored = False
     for a in acts:
-        m = {"within": True, "av": "", "rv": "", "exc": ""}
+        m = {"within": True, "av": "", "rv": "", "exc": "", "tw": "na"}
         out = "ok"
         if a["op"] == "SaveReopen":
             try:
@@ -516,12 +539,18 @@ def run_trace(job) -> dict:
                 prs2 = pptx.Presentation(io.BytesIO(b.getvalue()))
                 obj2 = resolve(prs2, path)
                 prs, obj = prs2, obj2
+                twin = twin_of(prs)
             except Exception as e:      # noqa: BLE001
                 out, m["exc"] = _outcome(e), "%s: %s" % (type(e).__name__, str(e)[:120])
         else:
             pr = props[a["p"] - 1]
-            if pr.get("lazy"):
+            if pr.get("lazy") and pr["lazy"] not in active:
                 active.add(pr["lazy"])
+                if twin is not None:            # a group of readers becomes observed from now on: the twin's baseline is re-read with it
+                    try:
+                        tw_prev = snapshot(twin, kd, active)["r"]
+                    except Exception:       # noqa: BLE001
+                        tw_prev = None
             try:
                 val = None if a["op"] == "SetNone" else concretise(pr, a["v"])
             except Unjudgeable as e:
@@ -536,6 +565,22 @@ def run_trace(job) -> dict:
                 m["rv"] = ("!" + err) if err else canon(got)
                 m["within"] = (not err) and within(pr, val, got)
         t = snapshot(obj, kd, active)
+        if twin is not None and tw_prev is not None:
+            try:
+                tw_now = snapshot(twin, kd, active)["r"]
+                m["tw"] = "same" if tw_now == tw_prev else "changed"
+                if a["op"] == "Set" and out == "ok" and not mirrored:
+                    mirrored = True
+                    try:
+                        set_prop(twin, props[a["p"] - 1]["p"], val)
+                    except Exception:       # noqa: BLE001
+                        pass
+                    if snapshot(obj, kd, active)["r"] != t["r"]:
+                        m["tw"] = "changed"          # assigning to the twin changed a reading of the object
+                    tw_now = snapshot(twin, kd, active)["r"]
+                tw_prev = tw_now
+            except Exception:       # noqa: BLE001
+                m["tw"] = "na"
         tr["steps"].append({"a": {"op": a["op"], "p": a["p"], "v": a["v"]}, "exp": a.get("exp", "free"), "out": out, "m": m,
                             "dr": _delta(s["r"], t["r"]), "dx": _delta(s["x"], t["x"])})
         s = t
